@@ -20,9 +20,11 @@ CMP = ["lt", "le", "gt", "ge", "eq", "ne"]
 
 
 class FoldGen:
-    def __init__(self, rnd):
+    def __init__(self, rnd, typed_mut=False, allow_for=True):
         self.r = rnd
         self.n = 0
+        self.typed_mut = typed_mut          # `mut T e` only (the checker models do not cover the inferred form)
+        self.allow_for = allow_for          # `for x in a~` uses a built-in iterator operator
 
     def fresh(self, p="v"):
         self.n += 1
@@ -158,7 +160,7 @@ class FoldGen:
             x = self.fresh("c")
             e = self.expr(env, t, d)
             env.append((x, t, True))
-            return ("set", x, ("mut", None if r.random() < 0.5 else t, e))
+            return ("set", x, ("mut", None if (r.random() < 0.5 and not self.typed_mut) else t, e))
         if k < 0.46:
             cs = [(x, tt) for x, tt, c in env if c and tt in (INT, STR)]
             if cs:
@@ -181,7 +183,7 @@ class FoldGen:
             return ("while", c, self.body(env, d - 1, True))
         if d > 0 and k < 0.73:
             return ("loop", self.body(env, d - 1, True))
-        if d > 0 and k < 0.755:
+        if d > 0 and k < 0.755 and self.allow_for:
             x = self.fresh("q")
             it = ("post", "iter", self.expr(env, ARR, d - 1))
             return ("for", x, it, self.body(env + [(x, INT, False)], d - 1, True))
@@ -230,7 +232,7 @@ class FoldGen:
         return out
 
 
-def generate(seed, n, depth=3):
+def generate(seed, n, depth=3, typed_mut=False, allow_for=True):
     rnd = random.Random(seed * 7919 + 17)
-    g = FoldGen(rnd)
+    g = FoldGen(rnd, typed_mut=typed_mut, allow_for=allow_for)
     return [g.program(depth if rnd.random() < 0.7 else depth - 1) for _ in range(n)]
